@@ -5,20 +5,20 @@ sys.path.insert(0, "/verif")
 import registry
 
 TEXT = {
- "C01": "Bounded model checking of the real column-extraction code (TableDefinition::extract -> ColumnParsing::extract -> extract_using_regex Split arm -> ValueType::parse) for every split result with fields of <= 2 bytes: typed value / NULL / DEFAULT / BOOLEAN-as-existence / array assembly exactly as stated.",
- "C02": "Bounded model checking of JsonAccess::get_value / from_linear and the typing table of convert_from_json on JSON array documents with symbolic leaves (any i64, u64, finite f64, bool, null, string), with and without DEFAULT.",
- "C03": "Bounded model checking of ExpressionExecutionEngine::evaluate per operator family and operand-variant shape with fully symbolic payloads (all i64, all f64 bit patterns ...): the solver decides the documented meaning (exact-or-error integer arithmetic, IEEE REAL arithmetic, NULL rules, comparisons by value, IS, AND/OR, IN/NOT IN, unary operators, abs, casts) for every operand value inside the bound.",
- "C04": "Bounded model checking of the real per-group fold kernels (GroupAggregator) under the engine's driver protocol: SUM / AVG / VARIANCE / BOOL_AND / BOOL_OR / PERCENTILE over 3 rows with every NULL pattern equal the value by definition. Fold level only: the group table is outside the claim.",
- "C06": "One inductive step from an arbitrary engine state, decided by the solver: a non-admitted row reaches no engine, emits nothing and moves no counter on all six dispatch paths; plus the admission rule of TableDefinition::extract for two columns with symbolic modifiers and fields.",
- "C07": "One inductive step of LIMIT accounting from every reachable counter state (n and rows-so-far any u8): never more than n rows, emitted rows are a prefix of the engine's output, reached_limit exactly when n rows are out; final aggregate table cut to n.",
- "C08": "Bounded model checking of DistinctValues::add over three tuples of 1-2 columns (NULL / small INT): a tuple is new exactly when no earlier tuple equals it; composed with C16's 'equal values hash equally'.",
+ "C01": "Bounded model checking of the real column-extraction code (ColumnParsing::extract -> extract_using_regex Split arm -> ValueType::parse) on a split result played by the harness: per shape (pattern matched or not, field present or not, DEFAULT or not) and for every field of <= 1 byte and every DEFAULT value, the column is the literal / NULL / DEFAULT / BOOLEAN-as-existence / own field / one-element array exactly as stated.",
+ "C02": "Bounded model checking of the real JSON extraction code (ColumnParsing::extract Json arm -> JsonAccess::get_value -> ValueType::convert_from_json) on harness-built JSON array documents: per column type x leaf kind, for every i64 / u64 / finite f64 / bool payload and every index, the column holds the addressed value typed without coercion, NULL on a type mismatch or JSON null (DEFAULT not used), DEFAULT or NULL only when the path is absent; nested index paths address exactly their element.",
+ "C03": "Bounded model checking of ExpressionExecutionEngine::evaluate per operator family and operand-variant shape with fully symbolic payloads (all i64, all f64 bit patterns ...): the solver decides the documented meaning (exact-or-error integer arithmetic, IEEE REAL addition / subtraction, NULL rules, comparisons by value, IS, AND/OR, IN/NOT IN, unary operators, abs, subscripts, INTERVAL cast) for every operand value inside the bound; and of SelectExecutionEngine::execute for one projection: exactly one row, under the projection's name, iff the WHERE value is TRUE.",
+ "C04": "Bounded model checking of the real per-group fold kernels (GroupAggregator) under the engine's driver protocol: SUM / AVG / BOOL_AND / BOOL_OR over 3 rows with concrete NULL patterns and symbolic values, PERCENTILE over one value and over all-NULL groups, equal the value by definition. Fold level only: the group table, VARIANCE / STDDEV and PERCENTILE over 2+ values are outside the claim.",
+ "C06": "One inductive step from an arbitrary engine state, decided by the solver: a non-admitted row reaches no engine, emits nothing and moves no counter on all six dispatch paths (SELECT / aggregate follow / aggregate batch, each with and without JOIN). The admission rule of TableDefinition::extract is decided for tables of two columns (each NULL or DEFAULT, NOT NULL flags symbolic).",
+ "C07": "One inductive step of LIMIT accounting from every reachable counter state (n and rows-so-far any u8): never more than n rows, emitted rows are a prefix of the engine's output, reached_limit exactly when n rows are out; final aggregate table cut to n; and on the real select engine: a DISTINCT duplicate does not use up the LIMIT (rows x, x, y under LIMIT 2).",
+ "C08": "Bounded model checking of the real SelectExecutionEngine::execute with DISTINCT over 2-3 rows of one column (any INT / REAL / BOOL / NULL / 1-byte TEXT): a row is emitted exactly when no earlier row has the same value (NULL = NULL, -0.0 = 0.0, NaN = NaN), surviving rows unchanged; composed with C16's 'equal values hash equally'. Multi-column tuples and the aggregate path are outside the claim.",
  "C09": "Union of CBMC's automatic panic / overflow / bounds / unwrap checks over the evaluator's integer kernels, the aggregate folds with full-range INT inputs, create_timestamp and TIMESTAMP literals under a symbolic time zone, and REAL-to-JSON printing.",
  "C10": "Bounded model checking of the real FollowFileIterator::next over a symbolic growing file: every content of <= 4 bytes x every chunking of the appends x every placement of the reader's polls, decided at once by the solver.",
  "C12": "Bounded model checking of FileExecutor::execute's reading loop (with the real std::io::Lines) over two symbolic files: the engine receives exactly the lines of file 1 then file 2, in order, byte for byte.",
- "C13": "Bounded model checking of the precedence table (every pair of operator tokens from two different classes) and of precedence climbing on 2- and 3-operator arithmetic chains with symbolic operators.",
- "C15": "Bounded model checking: the fold of 3 rows gives the same cell for all 6 arrival orders (symbolic permutation) and every NULL pattern, for SUM / AVG / VARIANCE / BOOL_AND / BOOL_OR / PERCENTILE.",
+ "C13": "Bounded model checking of the precedence levels the parser consults (Parser::get_token_precedence + the operator table): every pair of operator tokens from two different classes of the statement is ordered as stated, * / and + - share a level. The climbing loop itself (associativity) is outside the claim.",
+ "C15": "Bounded model checking: the fold of 3 rows gives the same cell for the arrival order as given, reversed and rotated, for every placement of NULLs tried (concrete patterns) and symbolic values, for SUM / AVG / BOOL_AND / BOOL_OR.",
  "C16": "Bounded model checking of the real Eq/Ord/Hash implementations of Value and Float: every pair / triple of scalar values of every variant combination is decided by the SAT solver for the order / equality / hash laws; counterexamples are replayed natively.",
- "C17": "Bounded model checking of Value::json_value for INT / REAL / BOOLEAN / NULL (exact recovery) and of OutputPrinter::print's record skeleton (one println per row, in order; CSV header once).",
+ "C17": "Bounded model checking of Value::json_value for INT / REAL / BOOLEAN / NULL: the JSON value is recovered exactly (REAL: same f64, non-finite -> null). The record skeleton of OutputPrinter::print (text / CSV) is outside the claim.",
  "C19": "Bounded model checking of FileExecutor::execute with the interrupt arriving after any number k of consumed lines (k symbolic): no line is consumed afterwards, no error, one final aggregate table over exactly the consumed lines.",
 }
 NOTE = "Bounds, stubs and everything outside the claim are listed per property in registry.py and repeated in the evidence file; trusted: Kani 0.68 / CBMC 6.11 / CaDiCaL, the contract stubs and container / I/O shims named there."
@@ -29,9 +29,6 @@ NA = [
  {"property_id": "C18", "reason": "needs symbolic hash seeds through SipHash and hashbrown probing (a single concrete map operation already costs 90-290 s); what remains is a data-flow argument, i.e. a different technique"},
 ]
 NA_OPTIONAL = {
- "C01": "harnesses built (c01_split_*: real ColumnParsing::extract on a harness-made ParsingInput) but only the BOOLEAN one concluded (12 min); INT/DEFAULT/array shapes exhaust 15-25 min / 10+ GB in CBMC (symbolic field bytes through i64::from_str, heap-held Vec<Value>); the regex engine cannot even be code-generated by Kani (compiler ICE)",
- "C02": "harness built (c02_json_*: JsonAccess::get_value + convert_from_json on a constructed serde_json::Value) concludes only after 24 min for one shape; object field steps are unreachable (IndexMap over hashbrown) and serde_json's parser is far beyond reach",
- "C08": "DistinctValues::add over three 1-2-column tuples on a Vec-backed set shim did not conclude in 15 min / 8 GB (clone + equality of heap-held Vec<Value>); the select engine around it needs a second loop iteration (unwind 3), which never concludes",
  "C10": "real FollowFileIterator::next over an I/O shim (symbolic file growing under a symbolic append/poll schedule) was built; CBMC was OOM-killed at 40 GB for a 2-byte file (String growth + symbolic-length copies), also with fixed content and only the schedule symbolic",
  "C12": "real FileExecutor::execute + std::io::Lines over the I/O shim was built; symbolic execution reaches 5.5 M steps in the drop glue of io::Result<String> (io::Error's boxed dyn Error) for every line and does not conclude in 25 min; std::io::Lines::next cannot be stubbed (generic trait impl)",
  "C14": "parsing totality needs the tokenizer / parser on symbolic text; tokenize on 4 symbolic bytes and extract_near on 4 bytes did not conclude in 40 min / 33 GB (DESIGN.md probes 20-21), and the token-level parser harnesses built for C13 explore the recursive-descent parser to the unwinding bound on every token (no verdict in 10 min)",
